@@ -574,6 +574,14 @@ func c10Body(t *zsim.Tape, w *zsim.World, d *zsim.Disk, sc *c10Scenario, out *hl
 		`{"SourceCode":"输入甲\n输出甲","VarInput":"抛出异常：“x”！"}`,
 		`{"SourceCode":"输入甲\n输出甲","VarInput":"甲"}`,
 		`{"SourceCode":"输入甲\n输出甲","VarInput":"= 1"}`,
+		`{"SourceCode":"输入甲、乙\n输出甲 + 乙","VarInput":"甲 = 1；乙 = 2"}`,
+		`{"SourceCode":"输入甲、乙\n输出甲 + 乙","VarInput":"甲 = 1; 乙 = 2"}`,
+		`{"SourceCode":"输入甲\n输出甲","VarInput":"；甲 = 1"}`,
+		`{"SourceCode":"输入甲、乙\n输出甲 + 乙","VarInput":"甲 = 1；；乙 = 2；"}`,
+		`{"SourceCode":"输入甲\n输出甲","VarInput":"；"}`,
+		`{"SourceCode":"输入甲\n输出甲","VarInput":"甲 = 1，乙 = 2"}`,
+		`{"SourceCode":"输入甲\n输出甲","VarInput":"\n\n甲 = 1\n\n"}`,
+		`{"SourceCode":"输入甲\n输出甲","VarInput":"注：说明\n甲 = 1"}`,
 		`{"a":1,"b":[1,2]}`,
 		`[1,2,3]`,
 		`null`, ` null `, `true`, `123`, `"text"`, `{}`, `{"VarInput":null,"SourceCode":null}`, `{"SourceCode":5}`, `[null]`,
